@@ -10,6 +10,7 @@ CONSTANTS
   MaxItems = 0
   Addrs = {"4096"}
   Grows = {}
+  Lates = FALSE
   NopKinds = {"1", "4"}
   VariantSet = "apply"
   Rotate = 2
